@@ -19,7 +19,7 @@ import (
 )
 
 type c08Item struct {
-	Kind string   `json:"kind"` // ok | initerr | crash.next | crash.resp | crash.idle | timeout.resp | timeout.init | ext.initerr | ext.exiterr | ext.stall | internal
+	Kind string   `json:"kind"` // ok | initerr | initerr.idle | crash.next | crash.resp | crash.idle | timeout.resp | timeout.init | ext.initerr | ext.exiterr | ext.stall | internal
 	Exts []string `json:"exts"` // subscriptions per extension file a0, a1 ("I", "IS", "S", "-")
 	N    int      `json:"n,omitempty"`
 }
@@ -125,6 +125,11 @@ func (c *c08Case) scenario(withPrefix bool) *Scenario {
 		case "initerr":
 			rt = Script{Steps: []Step{{Op: "rt.initerror", ErrType: "Runtime.PrefixBoom", BodyMode: "lit", Lit: `{"errorMessage":"prefix-init-boom"}`}, {Op: "exit", Code: 1}}}
 			needReset = false
+		case "initerr.idle":
+			// (first item only) the first initialisation fails with a reported init error and the environment is reset
+			// from outside while no invocation has arrived yet: nothing is reserved when the reset comes
+			rt = Script{Steps: []Step{{Op: "rt.initerror", ErrType: "Runtime.PrefixBoom", BodyMode: "lit", Lit: `{"errorMessage":"prefix-init-boom"}`, Signal: []string{tag + ".reported"}}, {Op: "exit", Code: 1}}}
+			drv = append(drv, Step{Op: "await", Name: tag + ".reported", Ms: 4000}, Step{Op: "sleep", Ms: 40})
 		case "crash.next":
 			rt = Script{Steps: []Step{{Op: "rt.next"}, {Op: "exit", Code: 7}}}
 			needReset = false
@@ -574,6 +579,9 @@ func c08Gen(t *rapid.T) c08Case {
 		if it.Kind == "ext.exiterr" {
 			it.Exts[0] = "I"
 		}
+		if k == 0 && rapid.IntRange(0, 9).Draw(t, "idleInitErr") == 0 {
+			it.Kind = "initerr.idle"
+		}
 		c.Prefix = append(c.Prefix, it)
 	}
 	c.Suffix = c08Suffix{Kind: rapid.SampledFrom([]string{"healthy", "healthy", "crash", "error", "internal.first", "internal.after", "timeout"}).Draw(t, "suffix"), Exts: c08GenExts(t, "se")}
@@ -598,6 +606,8 @@ func c08Fixed() []c08Case {
 	return []c08Case{
 		// the cached init error of generation 1 must not answer the crash of a later generation
 		{Prefix: []c08Item{{Kind: "initerr"}}, Suffix: c08Suffix{Kind: "crash"}},
+		{Prefix: []c08Item{{Kind: "initerr.idle"}}, Suffix: c08Suffix{Kind: "crash"}},
+		{Prefix: []c08Item{{Kind: "initerr.idle", Exts: []string{"IS"}}, {Kind: "ok"}}, Suffix: c08Suffix{Kind: "timeout", Exts: []string{"I"}}},
 		// barrier counts of an earlier generation: internal extension polls before the runtime, after a generation without extensions
 		{Prefix: []c08Item{{Kind: "ok"}}, Suffix: c08Suffix{Kind: "internal.first"}},
 		{Prefix: []c08Item{{Kind: "ok", Exts: []string{"I", "IS"}}}, Suffix: c08Suffix{Kind: "internal.first"}},
